@@ -34,15 +34,19 @@ DEMUX_CFG = {
         ("L3/len4", dict(D3, MaxLen=4, Probe=3, PktProbe=2)),
         ("L2/len5", dict(D2, MaxLen=5, Probe=4, PktProbe=3)),
         ("L2/ext/len4", dict(D2, Ssrcs="{1}", Ext="ExtAll", MaxLen=4, Probe=3, PktProbe=3)),
-        ("L3/sim", dict(D3, MaxLen=12, Probe=0, PktProbe=0, sim=(250, 12))),
+        ("L2/extras/len4", dict(D2, MaxLen=4, Probe=3, PktProbe=2, Extras='{"full", "ext"}')),
+        ("L3/sim", dict(D3, MaxLen=12, Probe=0, PktProbe=0, sim=(250, 12), Extras='{"full", "ext"}')),
     ],
     "thorough": [
         ("L3/len5", dict(D3, MaxLen=5, Probe=4, PktProbe=3)),
         ("L2/len6", dict(D2, MaxLen=6, Probe=5, PktProbe=4)),
         ("L2/full", dict(D2, MaxLen=40, Probe=0, PktProbe=0)),
         ("L3/ext/len4", dict(D3, Rids="{1, 2}", Ext="ExtAll", MaxLen=4, Probe=3, PktProbe=2)),
-        ("L3/sim", dict(D3, MaxLen=16, Probe=0, PktProbe=0, sim=(3000, 16))),
-        ("L3/ext/sim", dict(D3, Rids="{1, 2}", Ext="ExtAll", MaxLen=20, Probe=0, PktProbe=0, sim=(1500, 20))),
+        ("L2/extras/len5", dict(D2, MaxLen=5, Probe=4, PktProbe=3, Extras='{"full", "ext"}')),
+        ("L3/extras/len4", dict(D3, MaxLen=4, Probe=3, PktProbe=2, Extras='{"full", "ext"}')),
+        ("L3/sim", dict(D3, MaxLen=16, Probe=0, PktProbe=0, sim=(3000, 16), Extras='{"full", "ext"}')),
+        ("L3/ext/sim", dict(D3, Rids="{1, 2}", Ext="ExtAll", MaxLen=20, Probe=0, PktProbe=0, sim=(1500, 20),
+                            Extras='{"full", "ext"}')),
     ],
 }
 
@@ -63,6 +67,7 @@ CONSTANTS
   MaxLen = {c['MaxLen']}
   ProbeMaxLen = {c.get('Probe', 0)}
   PktProbeMaxLen = {c.get('PktProbe', 0)}
+  Extras = {c.get('Extras', '{}')}
   Deviations = {deviations}
 VIEW view
 INVARIANTS TypeOK
@@ -120,7 +125,7 @@ def sig_of(sub, d):
     s = {"sub": sub, "rule": d.get("rule"), "field": d.get("field")}
     if sub == "demux":
         s.update(by=cls.get("by"), closedHit=cls.get("closedHit"), ambiguousPt=(cls.get("holders", 0) >= 2),
-                 identified=cls.get("identified"))
+                 identified=cls.get("identified"), fullHit=bool(cls.get("fullHit")))
     else:
         s.update(first=d.get("first"), cont=d.get("cont"))
     return s
@@ -309,7 +314,7 @@ def run(tier):
         "exhaustive refers to the bounded G-edge / G-bounded runs; the simulation passes are random samples (seeded)",
         "RtpTransport.receive is called sequentially (one socket read loop per connection); no concurrent registration",
         "clear RTP mode (no SRTP session, srtp_required = false); the SRTP gate is property C14",
-        "listener channels are drained after every step: the 'channel full' drop is not exercised in the edge cover",
+        "listener channels are drained after every step unless the scenario filled one (Fill/Drain actions, bounded configs)",
         "demux: 'nothing delivered' is read from the listener channels right after the awaited receive() returns (no timeout)",
         "bridge: output observed on loopback UDP; a sentinel datagram through the same socket pair delimits each behaviour",
     ]
